@@ -290,6 +290,8 @@ func (v V) Build(rec *Recorder) interface{} {
 		return sv.Interface()
 	case "nilptr":
 		return (*int)(nil)
+	case "nildec": // a typed nil pointer to a decimal number
+		return (*decimal.Big)(nil)
 	case "nilslice": // typed nil slices and maps: slices and maps like any other, just empty
 		return []interface{}(nil)
 	case "nilstrs":
@@ -329,7 +331,7 @@ func retValue(kind, s string) reflect.Value {
 	switch kind {
 	case "nil":
 		return reflect.Zero(anyType)
-	case "int", "int8", "int16", "int32", "int64", "uint", "uint8", "uint64", "float32", "float64", "string", "bool", "dec", "time", "nilptr":
+	case "int", "int8", "int16", "int32", "int64", "uint", "uint8", "uint64", "float32", "float64", "string", "bool", "dec", "time", "nilptr", "nildec":
 		v := V{K: kind, S: s}
 		if kind == "time" && s == "" {
 			v.S = "2024-02-29T12:34:56Z"
